@@ -212,3 +212,35 @@ Fixpoint ref_run_st (ops : list op) (s : list byte) : list result * list byte :=
     end
   end.
 Definition ref_run (ops : list op) (s : list byte) : list result := fst (ref_run_st ops s).
+
+(* ---- what a delivered result accounts for on the flat stream ---- *)
+
+(* [unwrap acc raw line]: reading the raw text [raw] (which ends with its LF) in junk mode
+   with [acc] already accumulated delivers [line]: raw is a sequence of LF-terminated
+   segments; after each segment but the last the accumulated text ends in CR, and that
+   CR is dropped; after the last it does not. *)
+Inductive unwrap : list byte -> list byte -> list byte -> Prop :=
+| unwrap_end acc seg :
+    has_byte nl seg = false -> ends_cr (acc ++ seg) = false ->
+    unwrap acc (seg ++ [nl]) (acc ++ seg)
+| unwrap_wrap acc seg raw line :
+    has_byte nl seg = false -> ends_cr (acc ++ seg) = true ->
+    unwrap (removelast (acc ++ seg)) raw line ->
+    unwrap acc (seg ++ nl :: raw) line.
+
+(* the raw bytes [raw] consumed by read [o] and the data [d] it delivered *)
+Definition accounts (o : op) (d raw : list byte) : Prop :=
+  match o with
+  | OpLine false => raw = d ++ [nl] /\ has_byte nl d = false /\ has_byte intr d = false
+  | OpLine true => unwrap [] raw d /\ has_byte intr raw = false
+  | OpBinary size => raw = d /\ length d = Z.to_nat size
+  end.
+
+(* results of a run against the consecutive raw segments they consumed *)
+Inductive accounted : list op -> list result -> list (list byte) -> Prop :=
+| acc_end ops : accounted ops [] []
+| acc_data o ops d rs raw raws :
+    accounts o d raw -> accounted ops rs raws ->
+    accounted (o :: ops) (RData d :: rs) (raw :: raws)
+| acc_blocked o ops : accounted (o :: ops) [RBlocked] []
+| acc_interrupted o ops : accounted (o :: ops) [RInterrupted] [].
